@@ -28,9 +28,10 @@ RULE = ('Hypothesis generates a parameter table (2..10 models named in styles li
         'that differs from the name order; distinct = distinct canonical JSON.')
 RULE += (' ' + 'Also varied: right-justified model names in the parameter file, parameters.fits.gz, float32 columns, explicit parameters= lists, the table rewritten in the same directory between two passes.')
 RULE += (' ' + 'MODEL_NAME column at any position; the second pass in the same directory also revises the values.')
+RULE += (' ' + 'Parameter columns may be named like a fit quantity (AV, Scale, CHI2).')
 ASSUMPTIONS = [
     'printed precision: %10.3f -> 5.1e-4 absolute, %10.3e / %11.3e -> 5.1e-4 relative',
-    'columns are identified by the header names the functions print, not by position',
+    'the leading fit quantities (chi2, av, scale) are identified by position, parameter columns by the header names the functions print',
     'each call receives its own copy of the result objects (object identity / mutation is C10)',
 ]
 
@@ -47,7 +48,8 @@ def cases(draw):
     style = draw(st.sampled_from(sorted(NAME_STYLES)))
     names = [NAME_STYLES[style](i) for i in range(nmod)]
     ncol = draw(st.integers(1, 4))
-    colnames = draw(st.permutations(['MASS', 'par2', 'Teff', 'LOGL']))[:ncol]
+    # (a parameter may carry the name of a fit quantity: a circumstellar AV, a disc SCALE height, a CHI2 of the model grid)
+    colnames = draw(st.permutations(['MASS', 'par2', 'Teff', 'LOGL', 'AV', 'Scale', 'CHI2']))[:ncol]
     params = {}
     for c, cn in enumerate(colnames):
         # values encode (column, model): any mix-up changes numbers well above the printed precision
@@ -199,7 +201,8 @@ def run_case(case, ctx):
         head = lines[1].split()
         if head[:5] != ['fit_id', 'model_name', 'chi2', 'av', 'scale']:
             fail('write_parameters: unexpected header %r' % head, 'c09:wp_header')
-        colpos = dict((h, i) for i, h in enumerate(head))
+        # the five leading columns are the fit quantities; parameter columns are identified by name among the others
+        colpos = dict((h, i) for i, h in enumerate(head) if i >= 5)
         for c in allcols:
             if c.lower() not in colpos:
                 fail('write_parameters: column %s missing from the header %r' % (c, head), 'c09:wp_header')
@@ -219,14 +222,15 @@ def run_case(case, ctx):
                         rank + 1, e['name'], body[pos] if pos < len(body) else None), 'c09:wp_layout')
                 tok = body[pos]
                 pos += 1
-                if int(tok[colpos['fit_id']]) != rank + 1 or tok[colpos['model_name']] != k[0]:
+                if int(tok[0]) != rank + 1 or tok[1] != k[0]:
                     fail('write_parameters: fit %d of %s is %s in the ranking but the listing says %s' % (
-                        rank + 1, e['name'], k[0], tok[colpos['model_name']]), 'c09:wp_order')
+                        rank + 1, e['name'], k[0], tok[1]), 'c09:wp_order')
                 for key, want, absol in (('chi2', k[4], 5.1e-4), ('av', k[2], 5.1e-4), ('scale', k[3], 5.1e-4)):
-                    got = tofloat(tok[colpos[key]])
+                    kpos = {'chi2': 2, 'av': 3, 'scale': 4}[key]
+                    got = tofloat(tok[kpos])
                     if got is None or not close(got, want, rel=1e-12, absol=absol):
                         fail('write_parameters: %s of fit %d (%s) printed as %s, value %r' % (
-                            key, rank + 1, k[0], tok[colpos[key]], want), 'c09:wp_fit_values')
+                            key, rank + 1, k[0], tok[kpos], want), 'c09:wp_fit_values')
                 for c in allcols:
                     got = tofloat(tok[colpos[c.lower()]])
                     want = par_value(c, k[0])
@@ -260,11 +264,11 @@ def run_case(case, ctx):
                     if trip != ['-', '-', '-']:
                         fail('write_parameter_ranges: no fit selected but %s shows %r' % (g, trip), 'c09:wr_placeholders')
                     continue
-                if g == 'chi2':
+                if gi == 0:
                     vals = [k[4] for k in e['kept']]
-                elif g == 'av':
+                elif gi == 1:
                     vals = [k[2] for k in e['kept']]
-                elif g == 'scale':
+                elif gi == 2:
                     vals = [k[3] for k in e['kept']]
                 else:
                     match = [c for c in allcols if c.lower() == g]
@@ -279,7 +283,7 @@ def run_case(case, ctx):
                         fail('write_parameter_ranges: %s %s of %s shown as %r, expected %r (selected fits: %r)' % (
                             nm, g, e['name'], trip, want, [k[0] for k in e['kept']]), 'c09:wr_wrong_range')
         for c in allcols:
-            if c.lower() not in groups:
+            if c.lower() not in groups[3:]:
                 fail('write_parameter_ranges: column %s missing' % c, 'c09:wr_header')
 
         # ---------------------------------------------------------------- extract_parameters
@@ -302,15 +306,15 @@ def run_case(case, ctx):
             if len(lines) - 1 != len(e['kept']):
                 fail('extract_parameters: %d rows for %d selected fits of %s' % (len(lines) - 1, len(e['kept']), e['name']),
                      'c09:ex_row_count')
-            cp = dict((h, i) for i, h in enumerate(head))
+            cp = dict((h, i) for i, h in enumerate(head) if i >= 3)
             for rank, k in enumerate(e['kept']):
                 tok = lines[1 + rank].split()
                 if len(tok) != len(head):
                     fail('extract_parameters: malformed row %r' % tok, 'c09:ex_layout')
-                for key, want in (('CHI2', k[4]), ('AV', k[2]), ('SC', k[3])):
-                    got = tofloat(tok[cp[key]])
+                for kpos, (key, want) in enumerate((('CHI2', k[4]), ('AV', k[2]), ('SC', k[3]))):
+                    got = tofloat(tok[kpos])
                     if got is None or not close(got, want):
-                        fail('extract_parameters: %s of fit %d printed %s, value %r' % (key, rank + 1, tok[cp[key]], want),
+                        fail('extract_parameters: %s of fit %d printed %s, value %r' % (key, rank + 1, tok[kpos], want),
                              'c09:ex_fit_values')
                 if 'MODEL_NAME' in cp and tok[cp['MODEL_NAME']] != k[0]:
                     fail('extract_parameters: row %d of %s is %s in the ranking but shows %s' % (
